@@ -47,11 +47,11 @@ void mon_input(uint8_t b)
                 if (b == '\r') M->doom_crlf = 1;
                 return;
         }
-        if (M->line_len >= W.line_max) mcx_fatal("line longer than line_max=%d", W.line_max);
+        if ((int)M->line_len >= W.line_max) mcx_fatal("line longer than line_max=%d", W.line_max);
         {
                 /* the two prefix characters are case-insensitive for parser and reference alike: store them folded so states merge */
                 int nb = 0;
-                for (int i = 0; i < M->line_len && nb < 2; i++) if (I.line[i] != '\r') nb++;
+                for (int i = 0; i < (int)M->line_len && nb < 2; i++) if (I.line[i] != '\r') nb++;
                 if (nb < 2 && b >= 'a' && b <= 'z') b = (uint8_t)(b - 32);
         }
         I.line[M->line_len++] = b;
@@ -60,7 +60,7 @@ void mon_input(uint8_t b)
                 int reason = ref_prefix_doomed(I.line, M->line_len);
                 if (reason) {
                         int seen = 0, crlf = 0;
-                        for (int i = 0; i < M->line_len; i++) { if (I.line[i] == '\r') { if (seen) crlf = 1; } else seen = 1; }
+                        for (int i = 0; i < (int)M->line_len; i++) { if (I.line[i] == '\r') { if (seen) crlf = 1; } else seen = 1; }
                         M->doomed = (uint8_t)reason; M->doom_crlf = (uint8_t)crlf;
                         memset(I.line, 0, M->line_len);
                         M->line_len = 0;
